@@ -11,6 +11,7 @@ import ClockBound.Model.Crash
 import ClockBound.Model.DriverThreads
 import ClockBound.Model.DriverHeader
 import ClockBound.Model.DriverSession
+import ClockBound.Model.Config
 namespace ClockBound.Driver
 open ClockBound
 
@@ -153,6 +154,30 @@ def extractLine (args : List String) (impl : List String) : String :=
           verdict "C10" true (C10.Holds t now (chronyOfInt ics))]
       | _ => "oracle:unparsed"
     s!"{b} {cs.code} | {v} | {String.intercalate "," (trackingTags t now)}"
+  | _ => "bad-op | |"
+
+/-- `phcrun <refid argument, hex> <chrony refid> <stratum> <ipv4 word> <phc value>`: the release daemon end to end (Model/Config.lean);
+    stratum and source address of the report are not read by the daemon and do not occur in the model -/
+def phcrunLine (args : List String) (impl : List String) : String :=
+  match args with
+  | [hex, chrony, stratum, ip4, phc] =>
+    match DriverH.parseHex hex, chrony.toNat?, stratum.toNat?, ip4.toNat?, phc.toInt? with
+    | some cfg, some ch, some stv, some ipv, some p =>
+      let model := match C13.phcExpected cfg ch p with
+        | some b => s!"pub {b} 1"
+        | none => "exited"
+      let pub : Option (Int × Int) := match impl with
+        | ["pub", b, st] => (do let b ← b.toInt?; let st ← st.toInt?; pure (b, st))
+        | _ => none
+      let constrained := (refidOf cfg).isSome
+      let v13 := verdict "C13" constrained (C13.HoldsPhcRun cfg ch p pub)
+      let v07 := verdict "C07" constrained (C13.HoldsPhcRun cfg ch p pub)
+      let tags := ["phcrun"] ++ (if constrained then (if refidOf cfg == some ch then ["match"] else ["nomatch"]) else ["norefid"]) ++
+        (if cfg.any (fun b => decide (97 ≤ b ∧ b ≤ 122)) then ["lower"] else []) ++
+        (if cfg.all (fun b => decide ((48 ≤ b ∧ b ≤ 57) ∨ (65 ≤ b ∧ b ≤ 70) ∨ (97 ≤ b ∧ b ≤ 102))) && !cfg.isEmpty then ["hexlike"] else []) ++
+        (if cfg.length < 4 then ["short"] else []) ++ (if stv ≠ 1 then ["stratum"] else []) ++ (if ipv ≠ 0 then ["addr"] else [])
+      s!"{model} | {v13} {v07} | {String.intercalate "," tags}"
+    | _, _, _, _, _ => "bad-op | |"
   | _ => "bad-op | |"
 
 /-- one message of an `upd` history -/
@@ -557,6 +582,7 @@ def processLine (line : String) : String :=
     -- process-level run of the release binary: the writer died at start-up; the daemon must exit promptly
     let ok := impl == ["exited", "fast"]
     "exited fast | " ++ (if ok then "C15:holds" else "C15:FAILS") ++ " | release," ++ mode
+  | "phcrun" :: args => phcrunLine args impl
   | "open" :: args => (DriverH.line "open" args impl).getD "bad-op | |"
   | "open0" :: args => (DriverH.line "open" args impl).getD "bad-op | |"
   | "openu" :: args => (DriverH.line "open" args impl).getD "bad-op | |"   -- as an unprivileged process, no lockable memory
